@@ -3,6 +3,7 @@
    case : mine ("C04" | "C11": which property's clauses are evaluated), cfg  = [b0, p0, ps, rx, ry,            pixel (i,j) = [b0+i ps, b0+(i+1) ps] x [p0+j ps, p0+(j+1) ps]   (birth, persistence)
                   kern ("uniform" | "gdiag" | "gcorr"), ka, kb  (uniform: width, height ; gdiag: standard deviations in ticks),
                   wkind ("pers" | "ramp" | "const"), wn (exponent), ramp = [low, high, start, end],
+                  marg (1: correlated Gaussian on a grid reaching 8 sd around every point: marginal pixel sums are decided),
                   absdecide (1: kernel mass is decidable here: box overlap, or Phi table with all arguments on the 1/8 lattice)]
           imgs = [[dgm, skew, finite, shape, img]]   dgm = [[b, d]] as handed to transform, skew = 1: (birth, death) input
    C04 : every pixel = sum over points of weight * kernel mass of the pixel's square; image axes (birth, persistence); shape.
@@ -59,6 +60,20 @@ NZ(c, q) == Canon(SelectSeq(BP(c, q), LAMBDA pt : ~IsZeroWeight(c, pt)))
 TotalWeight(c, q) == LET pts == BP(c, q) RECURSIVE A(_) A(n) == IF n > Len(pts) THEN FZero ELSE FAdd(Weight(c, pts[n]), A(n + 1)) IN A(1)
 SumPixels(c, q) == LET RECURSIVE A(_, _) A(i, j) == IF i >= c.cfg.rx THEN FZero ELSE IF j >= c.cfg.ry THEN A(i + 1, 0) ELSE FAdd(Px(c, q, i, j), A(i, j + 1)) IN A(0, 0)
 First3(S) == CHOOSE x \in S : \A y \in S : x[1] < y[1] \/ (x[1] = y[1] /\ (x[2] < y[2] \/ (x[2] = y[2] /\ x[3] <= y[3])))
+\* correlated Gaussian on a grid that reaches >= 8 standard deviations around every point: the pixel sums along each axis are the
+\* 1-D normal masses of the other axis (the correlation integrates out), and the total is the total weight
+E7 == [s |-> 1, m |-> <<0, 0, 10>>]
+MargOK(c, q) ==
+  LET g == c.cfg  pts == BP(c, q)
+      rowsum(i) == LET RECURSIVE A(_) A(j) == IF j >= g.ry THEN FZero ELSE FAdd(Px(c, q, i, j), A(j + 1)) IN A(0)
+      colsum(j) == LET RECURSIVE A(_) A(i) == IF i >= g.rx THEN FZero ELSE FAdd(Px(c, q, i, j), A(i + 1)) IN A(0)
+      expb(i) == LET RECURSIVE A(_) A(n) == IF n > Len(pts) THEN FZero ELSE FAdd(FMul(Weight(c, pts[n]),
+                         FSub(PhiExt((8 * (g.b0 + (i + 1) * g.ps - pts[n][1])) \div g.ka), PhiExt((8 * (g.b0 + i * g.ps - pts[n][1])) \div g.ka))), A(n + 1)) IN A(1)
+      expp(j) == LET RECURSIVE A(_) A(n) == IF n > Len(pts) THEN FZero ELSE FAdd(FMul(Weight(c, pts[n]),
+                         FSub(PhiExt((8 * (g.p0 + (j + 1) * g.ps - pts[n][2])) \div g.kb), PhiExt((8 * (g.p0 + j * g.ps - pts[n][2])) \div g.kb))), A(n + 1)) IN A(1)
+      tol == FAdd(E7, FMul(E7, TotalWeight(c, q)))
+  IN /\ \A i \in 0..(g.rx - 1) : FClose(rowsum(i), expb(i), tol)
+     /\ \A j \in 0..(g.ry - 1) : FClose(colsum(j), expp(j), tol)
 Verdict(c) ==
   LET Q == 1..Len(c.imgs)
       NZs == TLCEval([q \in Q |-> NZ(c, q)])
@@ -68,6 +83,7 @@ Verdict(c) ==
                      {<<q, p[1], p[2]>> : q \in {q \in Q : OnLattice(c, q)}, p \in Pix(c)} IN
           LET badabs == {x \in abs : ~PxClose(Px(c, x[1], x[2], x[3]), ExpectedPixel(c, x[1], x[2], x[3]))} IN
           IF badabs # {} THEN <<"fail", "C04-pixel-differs-from-weighted-kernel-mass">> \o First3(badabs)
+          ELSE IF c.mine = "C04" /\ c.cfg.marg = 1 /\ \E q \in Q : ~MargOK(c, q) THEN <<"fail", "C04-correlated-gaussian-marginal-sums", Min({q \in Q : ~MargOK(c, q)}), 0, 0>>
           ELSE IF c.mine # "C11" THEN <<"ok", "", 0, 0, 0>>
           ELSE LET eqbad == {<<a, b, 0>> : a \in Q, b \in Q} \cap {x \in Q \X Q \X {0} : x[1] < x[2] /\ NZs[x[1]] = NZs[x[2]]
                                   /\ \E p \in Pix(c) : ~PxClose(Px(c, x[1], p[1], p[2]), Px(c, x[2], p[1], p[2]))}
